@@ -1,24 +1,125 @@
 """What MANIFEST.json claims, per property.  Imported by manifest_gen."""
 from .manifest_gen import claim, NA
 
-PENDING = "contracts for this property are specified in DESIGN.md but the check is not built yet in this commit"
+K_TRUST = "Trusted: kani-compiler 0.68 / CBMC 6.11 / CaDiCaL and rustc; harness modules are appended to the real source files in a scratch copy under cfg(kani) (function text under contract is /repo's, unchanged); every kani::stub is listed in the evidence; callers between the functions under contract and the public API (Visitor, parsers, serializer) are NOT verified."
+V_TRUST = "Trusted: Verus 0.2026.09.13 / Z3; the prelude's external_body contracts for Lexer and the std/char helpers (each discharged separately by a Kani obligation listed in the evidence); rewrite rules R1-R7 of DESIGN 3.2 (syntactic, counted per run); Vec<Token> length bound (allocation limit)."
 
+claim(
+    "C01",
+    "other",
+    "Partial (mechanisms 1 and 3 of 4). Unbounded proof (Verus, requires/ensures/invariant/decreases on the function text extracted by span "
+    "from parse/base.rs and parse/sass.rs on every run) that 19 BaseParser scanner methods and the two indented-syntax overrides terminate on every "
+    "token buffer, keep the cursor inside the buffer, never modify the buffer, satisfy the progress clauses their callers' measures need, never overflow "
+    "the hex accumulators and never fail char::from_u32(..).unwrap() / hex_char_for's precondition. The Lexer interface and the leaf methods Verus "
+    "cannot take (expect_char, scan, scan_ident_char, consume/expect_identifier) are discharged by Kani on the real code (bounded: buffer <= 4 tokens, "
+    "loop-free functions); the char helpers and std specifications over all char/u32 (complete). Number::convert's precondition (table entry exists) "
+    "is discharged at its call sites in sass_number.rs (all 37x37 simple unit pairs), Value::cmp and clamp() (unit representatives). Level 'other' "
+    "because some obligations are bounded stand-ins; they are listed as such in the evidence and not counted as proved. NOT covered: the recursive-descent "
+    "parsers proper, evaluation, serialization, the 226 unwrap/unreachable sites outside the scanners, min()/max(), bin_op.rs, non-UTF-8 input, imports.",
+    K_TRUST + " " + V_TRUST,
+    "Verus loop/termination contracts on extracted functions + Kani call-site contracts",
+    "DESIGN.md 5/C01",
+)
+claim(
+    "C07",
+    "other",
+    "Partial (mechanisms 1-2 of 4; printing and literal parsing are not reachable). On the real value/number.rs over ALL doubles: fuzzy_as_int agrees with the "
+    "1e-11 tolerance and never mis-casts below 2^63; is_zero/is_one/is_positive/is_negative/min/max/clamp contracts; `%` is NaN exactly for a zero divisor and otherwise "
+    "has the divisor's sign and bounded magnitude (relative to an assumed contract of f64::rem_euclid); Value::cmp (the implementation of < <= > >=) "
+    "answers Equal exactly for numbers equal within tolerance (left operand all doubles, right operand 5 concrete magnitudes). Thorough tier additionally "
+    "discharges the two-operand laws of fuzzy_equals / fuzzy_less_than (definition, symmetry, reflexivity, trichotomy; 10-100 min each in CBMC, with f64::round "
+    "as an uninterpreted function). Level 'other': K-full and K-contract obligations, one with a stated operand bound.",
+    K_TRUST + " epsilon()/inverse_epsilon() replaced by 1e-11/1e11 (checked natively bit-for-bit on every run); machine floats are CBMC's IEEE-754 model.",
+    "Kani loop-free harnesses over the full f64 domain",
+    "DESIGN.md 5/C07",
+)
 claim(
     "C08",
     "proof",
-    "Partial (mechanisms 1-3 of 5). Proved for all inputs of the functions under contract: (1) the conversion table, "
-    "rewritten mechanically on every run from the current initializer into a match, has an entry exactly for pairs in the "
-    "same convertible class of the statement, is 1 on the diagonal, equals the CSS ratios of the statement within 4 ulp, and "
-    "is inverse-consistent and transitive within 4 ulp (concrete loops over all pairs/triples, CBMC folds the constants); "
-    "(2) the real Unit::comparable/kind agree with the statement's classes on all 37x37 simple units (34 known, None, "
-    "Unknown with symbolic key) and 4 complex units, are an equivalence on non-None units, and comparable() implies a table "
-    "entry (the precondition of Number::convert). Not covered: multiply_units unit algebra, serializer rejection of complex "
-    "units, anything reached only through the Visitor.",
-    "Trusted: Kani/CBMC; the table-model rewrite (HashMap/Lazy dropped; cross-checked natively against the real table); "
-    "interner injectivity for Unknown units; callers between these functions and the public API are not verified.",
+    "Partial (mechanisms 1-3 of 5). Proved for all inputs of the functions under contract: (1) the conversion table, rewritten mechanically on every run from the "
+    "current initializer into a match and validated natively bit-for-bit against the real Lazy<HashMap>, has an entry exactly for pairs in the same convertible "
+    "class of the statement, is 1 on the diagonal, equals the CSS ratios of the statement within 4 ulp, and is inverse-consistent and transitive within 4 ulp; "
+    "(2) the real Unit::comparable/kind agree with the statement's classes on all 37x37 simple units (34 known, None, Unknown with symbolic key) and 4 complex units, "
+    "are an equivalence on non-None units, and comparable() implies a table entry; (3) SassNumber +,-,== : never reach a missing table entry, take the left operand's unit "
+    "(the right one's when the left is unitless), compute l op r*factor, unitless equals only unitless, and the statement's ratios hold through == (1in == 96px == ...). "
+    "NOT covered: bin_op.rs add/sub/rem (CBMC does not finish on `Value`), multiply_units unit algebra, serializer rejection of complex units.",
+    K_TRUST + " Interner injectivity for Unknown units; concrete magnitudes at call sites (symbolic units).",
     "Kani function-level contracts (loop-free / concretely unrolled harnesses over the whole unit domain)",
     "DESIGN.md 5/C08",
 )
+claim(
+    "C09",
+    "other",
+    "Partial (mechanisms 1, 2 and 5 of 5 on stack values; map operations are not reachable). On the real Value::eq / Value::not_equals: for numbers over all 37x37 simple unit "
+    "pairs `!=` is exactly the negation of `==`, a quantity equals itself expressed in any convertible unit in both argument orders, and == is reflexive; on a universe of 13 "
+    "stack values (null, booleans, numbers, quoted/unquoted strings, empty comma/space/bracketed lists, an argument list, an empty map) == is symmetric and reflexive and != its "
+    "negation; colors: byte and rgba() spellings compare equal in both orders. Bounded stand-in (value universe), not counted as proved. NOT covered: non-empty lists and maps, "
+    "SassMap insert/remove/merge (dropping a Value is beyond Kani here), transitivity, duplicate-key check, index().",
+    K_TRUST + " Values are never dropped in harnesses (ManuallyDrop).",
+    "Kani contracts on Value::eq/not_equals over symbolic units and a bounded value universe",
+    "DESIGN.md 5/C09",
+)
+claim(
+    "C15",
+    "proof",
+    "Partial (mechanism 1 and the equality part). Proved on the real color/mod.rs for ALL doubles (NaN and infinities included) / all bytes: both clamping constructors yield "
+    "integer-rounded red/green/blue in [0,255] and alpha in [0,1]; named-color construction; change-alpha/opacify/transparentize clamp and leave rgb untouched; whiteness/blackness in [0,1] "
+    "with sum <= 1; invert with weight 0 is the identity; a color written as bytes equals the same color built by rgba() in both orders, differing channels/alpha are unequal. "
+    "NOT covered (CBMC cannot finish symbolic multiply/fma chains): rgb<->hsl/hwb round trips, lighten/darken/saturate/adjust-hue/complement, mix, hex parsing, the named table, compressed spelling.",
+    K_TRUST,
+    "Kani loop-free harnesses over the full f64 / u8 domain",
+    "DESIGN.md 5/C15",
+)
+claim(
+    "C16",
+    "other",
+    "Partial (mechanisms 2 and 3 of 4, clamp() only for mech 2). parenthesize_calculation_rhs: for all 16 operator pairs, dropping the parentheses the printer omits preserves the value "
+    "(complete over the operator domain). clamp(): over unit triples from the class representatives {none,px,in,em,deg}: never violates Number::convert's precondition, reduces only for mutually "
+    "convertible units, result is one of the arguments and (for min <= max) lies in the range, otherwise the arguments are kept in order. One known finding is reported (inverted range, dart-sass parity). "
+    "NOT covered: min()/max() and operate_internal (recursive drop glue of heap-stored CalculationArg: CBMC does not finish), printing, parsing.",
+    K_TRUST + " verify_compatible_numbers stubbed (always Ok) in the clamp harnesses.",
+    "Kani call-site contracts (straight-line harnesses over unit representatives)",
+    "DESIGN.md 5/C16",
+)
+claim(
+    "C17",
+    "other",
+    "Bounded. MediaQuery::merge against the logical intersection: for each concrete pair of queries the media environment (media type x truth value of every feature condition) is symbolic and "
+    "Success(r) must be satisfied by exactly the environments satisfying both queries, Empty only when none does, in both argument orders. Quick tier: one representative pair per branch of merge "
+    "(22 pairs incl. case-insensitivity and non-conjunctions); thorough tier: all 476 unordered pairs of the universe {no type, all, screen, print} x {none, not, only} x subsets of {(a),(b)} minus the "
+    "statement's exclusions. Visitor::merge_media_queries: the all-empty case. NOT covered: symbolic query strings, the media query parser/printer, visit_media_rule.",
+    K_TRUST + " Query strings are concrete (symbolic strings exhaust CBMC).",
+    "Kani harness per concrete query pair with symbolic media environment",
+    "DESIGN.md 5/C17",
+)
+claim(
+    "C18",
+    "other",
+    "Narrow (mechanism 2 of 5 only). TokenLexer::next on all 156 strings of <= 3 characters over {a, LF, CR, FF, e-acute}: never yields a CR or FF token, token kinds equal the text with CRLF/CR/FF replaced by LF, "
+    "positions are increasing byte offsets of the original text with pos + len_utf8 <= len. Bounded stand-in. NOT covered: SCSS vs indented vs CSS agreement (a relation between whole parses), "
+    "whitespace/comment insertion, BOM/@charset, `_`/`-` normalisation (interner not executable under Kani).",
+    K_TRUST,
+    "Kani bounded harness over an exhaustive small-string table",
+    "DESIGN.md 5/C18",
+)
+claim(
+    "C19",
+    "other",
+    "Narrow (location bounds of parser errors only). For every lexer state with <= 4 tokens satisfying the data invariant (cursor <= len, every token inside entire_span unless expanded) and every "
+    "start <= cursor: current_span/prev_span/span_from do not panic (Span::subspan's assertions cannot fire) and return a span inside entire_span; current_span covers exactly the current character; "
+    "Lexer::new_from_string establishes the invariant for all 156 small strings and a symbolic span. Bounded in buffer length only (functions are loop-free). NOT covered: the (message, span) construction "
+    "sites in parser and evaluator, rendering, @debug/@warn routing, quiet, stdout/stderr silence.",
+    K_TRUST,
+    "Kani contracts on the Lexer span functions (symbolic tokens, positions and span)",
+    "DESIGN.md 5/C19",
+)
 
-for p in ("C01", "C03", "C04", "C07", "C09", "C15", "C16", "C17", "C18", "C19"):
-    NA.setdefault(p, PENDING)
+NA["C03"] = (
+    "scoping/control flow live in Visitor methods (Kani cannot construct a Visitor: ICE on HashMap/Lazy); the function-shaped part (evaluate/scope.rs) stores Values in "
+    "Arc<RefCell<BTreeMap<Identifier,Value>>>: RefCell/Arc<RefCell> are outside Verus, and under Kani dropping a Value reaches HashMap drop glue (kani-compiler ICE, measured) while BTreeMap "
+    "operations do not finish in CBMC (measured on css_tree.rs: > 10 min for 3 insertions) (DESIGN 5/C03)"
+)
+NA["C04"] = (
+    "flattening is Visitor code; evaluate/css_tree.rs was attempted with Kani (experiments/kani_not_feasible/c04_css_tree.rs): 3 insertions into its BTreeMap index maps do not finish in 10 min, "
+    "and CssStmt drop glue reaches Value/HashMap (ICE); Vec<RefCell<Option<CssStmt>>> is outside Verus (DESIGN 5/C04)"
+)
